@@ -1,10 +1,14 @@
 import Driver.Common
+import Driver.C02
+import Driver.C05
 import Driver.C07
 import Driver.C08
 import Driver.C16
 import Driver.C03
+import Driver.C04
 import Driver.C14
 import Driver.C17
+import Driver.C09
 
 open Fontc Fontc.Driver
 
@@ -12,8 +16,10 @@ open Fontc Fontc.Driver
 def handlers : List (String × Handler) :=
   ([] : List (String × Handler))
   |>.cons ("c07", C07.handle)
+  |>.cons ("c05sfnt", C05.handleSfnt)
+  |>.cons ("c05font", C05.handleFont)
   |>.cons ("c03e2e", C03.handle)
-  |>.cons ("c04e2e", C03.handle)
+  |>.cons ("c04e2e", C04.handle)
   |>.cons ("c14names", C14.handleNames)
   |>.cons ("c14paths", C14.handlePaths)
   |>.cons ("c14emit", C14.handleEmit)
@@ -21,6 +27,9 @@ def handlers : List (String × Handler) :=
   |>.cons ("c08", C08.handle)
   |>.cons ("c08mal", C08.handle)
   |>.cons ("c17", C17.handle)
+  |>.cons ("c02", C02.handle)
+  |>.cons ("c09", C09.handle)
+  |>.cons ("c09e2e", C09.handleE2E)
 
 def processLine (line : String) : String :=
   match Sexp.parse line with
